@@ -115,11 +115,16 @@ def run_e2e(seed, tape, opts, app=None):
                 sim.net.reveal(l)
         # only the clock can end a silent loss (ping monitor)
         sim.allow_advance = not tell
+        # (... but only when nothing else can happen: a clock that runs ahead
+        # of bytes in flight would make every handshake look like a dead peer)
+        saved_w = sim.weights["advance"]
+        sim.weights["advance"] = 0
         sim.run(12000, until=lambda: conns() is not None and
                 conns()[0] is not old[0] and conns()[1] is not old[1] or
                 bool(a.closed_results or b.closed_results or a.saw_failure or
                      b.saw_failure), max_time=300)
         sim.allow_advance = False
+        sim.weights["advance"] = saved_w
         c2 = conns()
         if not tell:
             for l in live:
